@@ -159,8 +159,7 @@ def check(ctx, case):
         return
     columns, notes = gen_notes(rng, timing, tl, grid)
     text = render(notes, columns)
-    sf = SSCSimfile(string=G.to_text(timing))
-    td = TimingData(sf)
+    td = G.build_timing_data(timing)
     nd = NoteData(text)
     decoded = list(nd)
     if [(n.player, int(n.beat * 48), n.column, n.note_type.value, n.keysound_index) for n in decoded] != sorted(notes):
